@@ -154,6 +154,9 @@ func genKeyIDs(r *sim.Rng) map[string]string {
 }
 
 func genValidity(r *sim.Rng) uint64 {
+	if r.Intn(25) == 0 {
+		return 0 // configured explicitly as zero: the request asks for zero, the lifetime is still finite and not shorter
+	}
 	switch r.Intn(6) {
 	case 0:
 		return 1
